@@ -75,7 +75,7 @@ MeterB == M("B", "m1", "2.0", "s1")
 MeterC == M("C", "m2", "1.0", "")
 AllMeters == {MeterA, MeterB, MeterC}
 MS(n, v, s) == [name |-> n, version |-> v, schema |-> s]
-AllMSels == {MS(n, v, s) : n \in {"", "m1", "m2"}, v \in {"", "1.0", "2.0"}, s \in {"", "s1"}}
+AllMSels == {MS(n, v, s) : n \in {"", "m1", "m2"}, v \in {"", "1.0", "2.0"}, s \in {"", "s1", "s2"}}
 MeterMatch(ms, m) == /\ ms.name = "" \/ ms.name = m.name
                      /\ ms.version = "" \/ ms.version = m.version
                      /\ ms.schema = "" \/ ms.schema = m.schema
@@ -265,11 +265,13 @@ Types2     == {"Counter", "ObsGauge"}
 PatsAll    == AllPats
 Pats3      == {P("exact", <<"x", "a">>), P("prefix", <<"x">>), P("all", <<>>)}
 PatAllOnly == {P("all", <<>>)}
+Pats2      == {P("all", <<>>), P("exact", <<"z", "z">>)}
 UnitSelAll == AllUnits
 UnitSel2   == {"", "ms"}
 UnitSelAny == {""}
 MSelsAll   == AllMSels
 MSels4     == {MS("", "", ""), MS("m1", "1.0", "s1"), MS("m1", "", ""), MS("m2", "", "")}
+MSels3     == {MS("", "", ""), MS("m1", "1.0", "s1"), MS("m2", "", "")}
 MSels2     == {MS("", "", ""), MS("m1", "1.0", "s1")}
 MetersAB   == {MeterA, MeterB}
 MSelAny    == {MS("", "", "")}
